@@ -35,7 +35,7 @@ func c17Grid(full bool) []dtStr {
 	var out []dtStr
 	// (2023-03-26 / 2023-11-05 / 2024-03-10: daylight-saving transitions in Europe/Berlin and America/New_York)
 	dates := []string{"2023-08-15", "2024-02-29", "2023-03-26", "2023-11-05", "2024-03-10", "1999-12-31", "2000-01-01", "0001-01-01", "9999-12-31", "1970-01-01"}
-	times := []string{"00:00:00", "12:34:56", "23:59:59", "01:30:00", "03:30:00", "06:00:00", "23:59:59.999999", "12:34:56.789", "00:00:00.5", "12:34:56.1234567", "23:59:59.9999995", "12:34:56.123456789", "02:30:00"}
+	times := []string{"00:00:00", "12:34:56", "23:59:59", "01:30:00", "03:30:00", "06:00:00", "23:59:59.999999", "12:34:56.789", "00:00:00.5", "12:34:56.1234567", "23:59:59.9999995", "12:34:56.123456789", "02:30:00", "12:34:56.4999995", "23:59:59.9499996", "00:00:00.0049999995"}
 	zones := []string{"Z", "+00", "+01", "-05", "+05:30", "-03:30", "+14:00", "-12:00", "+13:45", "+00:00", "-08", "+09:00"}
 	if !full {
 		dates = dates[:7]
